@@ -3,6 +3,7 @@ package kvsim
 import (
 	"errors"
 	"fmt"
+	"math"
 
 	"github.com/Fantom-foundation/lachesis-base/eventcheck"
 	"github.com/Fantom-foundation/lachesis-base/gossip/dagordering"
@@ -87,6 +88,27 @@ func RunBuffer(c *sim.Ctx) {
 		ample = false
 	}
 	limit := dag.Metric{Num: idx.Event(limNum), Size: limSize}
+	// "no limit" is written in several ways by applications: generous numbers or the largest values of the types
+	switch knobInt(c, "ample_limit_style", 0, 3) {
+	case 1:
+		if limNum == 1000 {
+			limit.Num = math.MaxUint32
+		}
+		if limSize == 1<<30 {
+			limit.Size = math.MaxUint64
+		}
+	case 2:
+		if limNum == 1000 {
+			limit.Num = 1 << 31
+		}
+		if limSize == 1<<30 {
+			limit.Size = 1 << 63
+		}
+	case 3:
+		if limSize == 1<<30 {
+			limit.Size = math.MaxInt64
+		}
+	}
 	failProc := map[int]bool{}
 	failCheck := map[int]bool{}
 	nf := knobInt(c, "failing_events", 0, 2)
